@@ -1,3 +1,3 @@
 SPECIFICATION Spec
-CONSTANTS MaxTables = 2 Vals = {1, 2, 3} MaxLen = 2 PinnedDebugMerge = TRUE
+CONSTANTS MaxTables = 2 Vals = {1, 2, 3} MaxLen = 2 PinnedDebugMerge = TRUE PinnedDebugNodes = FALSE
 INVARIANT InvFindAll
